@@ -5,7 +5,6 @@ command -v java >/dev/null || { echo "no java"; exit 1; }
 test -f /opt/veriftools/tla/tla2tools.jar || { echo "no tla2tools"; exit 1; }
 /venv/bin/python -c "import sys; sys.path.insert(0,'/repo'); import rich" || exit 1
 mkdir -p .work evidence replays
-rm -rf .work/*
 fail=0
 for f in specs/MC_*.tla specs/Trace_*.tla; do
   [ -f "$f" ] || continue
